@@ -255,7 +255,7 @@ class _MetricCache(defaultdict):
   def store(self, metric, datapoint):
     timestamp, value = datapoint
     with self.lock:
-      if timestamp not in self[metric]:
+      if timestamp not in self.get(metric, {}):
         # Not a duplicate, hence process if cache is not full
         if self.is_full:
           log.msg("MetricCache is full: self.size=%d" % self.size)
